@@ -13,6 +13,10 @@ C01 — No storage reward or prover status without a valid proof of the challeng
 7. `C01_only_credited_provers_are_paid`, `C01_only_listed_records_are_credited`,
    `C01_manageProof_credits_record_prover`, `C01_block_pays_only_listed_provers`.
 8. Merkle wrappers.
+9. Along whole executions (messages, begin-blockers, parameter changes, from any consistent state /
+   from genesis): `C01_listed_provers_have_proven_along_histories`,
+   `C01_from_genesis_listed_provers_have_proven`, `C01_paid_only_after_valid_proof` — the
+   "Consequently no account is ever paid … for a file it has never validly proven" clause.
 
 Hypotheses that had to be added are store-consistency facts (`Consistent` in
 `Proofs/StorageA.lean`: no duplicate file keys, a file is stored under its own key, listed proof keys
@@ -816,5 +820,137 @@ example :
     by decide, by decide, ?_⟩
   rintro ⟨nc, h⟩
   simp at h
+
+
+/-! ## 9. Along whole executions: prover status and payment presuppose an accepted proof -/
+
+/-- the event "`pk.1` submitted, for the file `pk.2`, a Merkle proof that verified against the
+file's root for the chunk it was challenged with (the initial challenge 0 for a newcomer)" -/
+def ProvedIn (evs : List Event) (pk : PKey) : Prop :=
+  ∃ h now nc, Event.msg h now (.postProof pk.1 pk.2.1 pk.2.2.1 pk.2.2.2 0 true nc) ∈ evs
+
+theorem ProvedIn.cons {evs : List Event} {pk : PKey} (e : Event) (h : ProvedIn evs pk) :
+    ProvedIn (e :: evs) pk := by
+  obtain ⟨h1, now, nc, hm⟩ := h
+  exact ⟨h1, now, nc, List.mem_cons_of_mem _ hm⟩
+
+/-- one event: a proof key listed afterwards was listed before (for the same file key), or the event
+is that account's verified proof for that file -/
+theorem listed_after_event (s s' : State) (e : Event) (hc : Consistent s)
+    (hs : applyEvent s e = some s') (k : FKey) (f' : File) (pk : PKey)
+    (hf' : AMap.get s'.files k = some f') (hin : pk ∈ f'.proofs) :
+    (∃ f, AMap.get s.files k = some f ∧ pk ∈ f.proofs) ∨ ProvedIn [e] pk := by
+  cases e with
+  | msg h now op =>
+    simp only [applyEvent] at hs
+    cases hg : AMap.get s.files k with
+    | none =>
+      have := (C01_new_file_has_no_provers s s' h now op hc.key hs k f' hg hf').1
+      rw [this] at hin; cases hin
+    | some f =>
+      by_cases hold : pk ∈ f.proofs
+      · exact Or.inl ⟨f, rfl, hold⟩
+      · obtain ⟨hk, nc, hop⟩ :=
+          C01_prover_added_only_by_verified_proof s s' h now op hc.key hs k f f' pk hg hf' hin hold
+        right
+        refine ⟨h, now, nc, ?_⟩
+        subst hop
+        obtain ⟨c, m, o, st⟩ := pk
+        simp only at hk
+        subst hk
+        exact List.mem_singleton.mpr rfl
+  | block h now =>
+    simp only [applyEvent] at hs
+    split at hs
+    · rename_i s2 hb
+      cases hs
+      obtain ⟨hfiles, -⟩ := C01_beginBlock_never_adds_provers s s' h now hc hb
+      obtain ⟨f, hf, -, -, hsub⟩ := hfiles k f' hf'
+      exact Or.inl ⟨f, hf, hsub pk hin⟩
+    · cases hs
+  | setParams p =>
+    simp only [applyEvent, Option.some.injEq] at hs
+    subst hs
+    exact Or.inl ⟨f', hf', hin⟩
+
+/-- **Prover status presupposes an accepted proof, along every execution.**  Start from any
+consistent state (the empty genesis state is one) and run any sequence of delivered messages,
+begin-blockers and parameter changes.  Every account listed afterwards as a prover of a stored
+file was already listed for that file at the start, or the execution contains a `postProof` by that
+very account for that very file whose Merkle proof verified for the challenged chunk. -/
+theorem C01_listed_provers_have_proven_along_histories (evs : List Event) :
+    ∀ (s s' : State), Consistent s → evs.foldlM applyEvent s = some s' →
+      ∀ k f' pk, AMap.get s'.files k = some f' → pk ∈ f'.proofs →
+        (∃ f, AMap.get s.files k = some f ∧ pk ∈ f.proofs) ∨ ProvedIn evs pk := by
+  induction evs with
+  | nil =>
+    intro s s' _ h k f' pk hf' hin
+    simp only [List.foldlM_nil, pure, Option.some.injEq] at h
+    subst h
+    exact Or.inl ⟨f', hf', hin⟩
+  | cons e evs ih =>
+    intro s s' hc h k f' pk hf' hin
+    simp only [List.foldlM_cons, bind, Option.bind_eq_some_iff] at h
+    obtain ⟨s1, h1, h2⟩ := h
+    have hc1 : Consistent s1 := consistent_run [e] s s1 hc (by simp [List.foldlM_cons, h1])
+    rcases ih s1 s' hc1 h2 k f' pk hf' hin with ⟨f1, hf1, hin1⟩ | hp
+    · rcases listed_after_event s s1 e hc h1 k f1 pk hf1 hin1 with hold | ⟨hh, now, nc, hm⟩
+      · exact Or.inl hold
+      · right
+        refine ⟨hh, now, nc, ?_⟩
+        rw [List.mem_singleton] at hm
+        rw [hm]; exact List.mem_cons_self
+    · exact Or.inr (hp.cons e)
+
+/-- From genesis (no files): every listed prover has proven. -/
+theorem C01_from_genesis_listed_provers_have_proven (evs : List Event) (s0 s' : State)
+    (hc : Consistent s0) (hempty : s0.files = []) (hrun : evs.foldlM applyEvent s0 = some s')
+    (k : FKey) (f' : File) (pk : PKey) (hf' : AMap.get s'.files k = some f') (hin : pk ∈ f'.proofs) :
+    ProvedIn evs pk := by
+  rcases C01_listed_provers_have_proven_along_histories evs s0 s' hc hrun k f' pk hf' hin with
+    ⟨f, hf, -⟩ | hp
+  · rw [hempty] at hf; cases hf
+  · exact hp
+
+/-- **No reward without a valid proof, along every execution.**  After any execution from genesis,
+an account (other than the module account, which collects the gauge releases) whose balance grows
+in a reward block has, somewhere in that execution, submitted a verifying proof of the challenged
+chunk for a file it is listed on. -/
+theorem C01_paid_only_after_valid_proof (evs : List Event) (s0 s s' : State) (h now : Int)
+    (hc : Consistent s0) (hempty : s0.files = []) (hrun : evs.foldlM applyEvent s0 = some s)
+    (hblock : manageRewards s h now = .ok s') (a d : String) (ha : a ≠ s.moduleAcc)
+    (hgain : bal s.bank a d < bal s'.bank a d) :
+    ∃ pk, pk.1 = a ∧ ProvedIn evs pk := by
+  have hcs : Consistent s := consistent_run evs s0 s hc hrun
+  rcases C01_block_pays_only_listed_provers s s' h now hcs hblock a d hgain with hm | ⟨kv, hkv, pk, hpk, p, hp, hpa⟩
+  · exact absurd hm ha
+  · have hget : AMap.get s.files kv.1 = some kv.2 :=
+      (AMap.mem_iff_get_of_wf hcs.wf kv.1 kv.2).mp hkv
+    refine ⟨pk, ?_, C01_from_genesis_listed_provers_have_proven evs s0 s hc hempty hrun kv.1 kv.2 pk hget hpk⟩
+    rw [← hcs.record pk p hp]; exact hpa
+
+/-- non-vacuity: an execution from the empty state in which bob becomes a prover of alice's file —
+and the theorem's witness is his proof event -/
+def genesisState : State := { demoState with files := [], files2 := [], proofs := [] }
+
+theorem genesisState_consistent : Consistent genesisState := by
+  refine ⟨by unfold AMap.WF; decide, ?_, ?_, ?_, ?_⟩ <;> intro a b h <;> simp [genesisState, demoState] at h
+
+def demoRun : List Event := [.setParams demoParams, .msg 20 0 (.postProof "bob" "aa" "alice" 10 0 true 1)]
+
+/-- the execution runs, bob ends up listed, he was not listed before, and the theorem's conclusion
+is witnessed by his proof event -/
+example : demoRun.foldlM applyEvent demoState = some demoState1 := rfl
+example : ("bob", "aa", "alice", 10) ∈ demoFile.proofs → False := by decide
+example : ProvedIn demoRun ("bob", "aa", "alice", 10) := by
+  rcases C01_listed_provers_have_proven_along_histories demoRun demoState demoState1 demoState_consistent rfl
+    ("aa", "alice", 10) { demoFile with proofs := [("bob", "aa", "alice", 10)] } ("bob", "aa", "alice", 10)
+    (by decide) (by decide) with ⟨f, hf, hin⟩ | hp
+  · have : f = demoFile := by
+      have h2 : AMap.get demoState.files ("aa", "alice", 10) = some demoFile := by decide
+      rw [h2] at hf; cases hf; rfl
+    subst this
+    exact absurd hin (by decide)
+  · exact hp
 
 end Canine.Storage
